@@ -71,6 +71,9 @@ def run(tier, seed, replay=None):
                 '#ifdef __DATE__\n#define DSTAMP __DATE__\n#else\n#define DSTAMP "undated"\n#endif\n#ifdef __FILE__\n#define FSTAMP __FILE__\n#else\n#define FSTAMP "nofile"\n#endif\n'
                 + G_ + 'table(feature) f1 { id = 100; name.1033 = string(STAMP); settings { on { value = 1; name.1033 = string(DSTAMP); } '
                 'off { value = 0; name.1033 = string(FSTAMP); } } default = off; } endtable;\ntable(sub) cA > cB; endtable;\n'))
+    # labels with a byte the code page does not define, and labels in a code page the system does not know
+    bad.append(("ok_label_with_undefined_byte", '#include "stddef.gdh"\n' + G_ + 'table(feature) f1 { id = 100; name.1033 = string("ab\x81cd efgh ijkl mnop"); '
+                'settings { on { value = 1; name.1033 = string("x\x8dy"); } off { value = 0; name.1033 = string("Off", 99999); } } default = off; } endtable;\ntable(sub) cA > cB; endtable;\n'))
     bfont = _ttf.simple_font(40, post_names=[".notdef"] + ["g%d" % i for i in range(1, 40)])[0]
     # renaming the font family (4th argument) of a font that is not "Regular" and has preferred-family / preferred-subfamily /
     # compatible-full records (ids 16-18): the name table is rebuilt with strings of other lengths
